@@ -26,6 +26,7 @@ RESULTS: list = []   # scripted results of the user move
 VERDICTS: list = []  # scripted verdicts of the user criteria
 TRUTHY = [True, 1, "yes", [0], 2.5]
 FALSY = [False, 0, None, "", []]
+KEPT: list = []   # (object handed to on_cell_changed, its value at that moment)
 
 MOVE_API = {"on_atoms_changed", "on_cell_changed", "to_dict", "from_dict", "_tag"}
 CRIT_API = {"evaluate", "to_dict", "from_dict", "_tag"}
@@ -86,6 +87,8 @@ class UserMove:
 
     def on_cell_changed(self, new_cell):
         LOG.append(("on_cell_changed", object.__getattribute__(self, "_tag"), np.asarray(new_cell).tolist()))
+        # a user move may keep what it is told (a step length that follows the volume ...): what it keeps is its own
+        KEPT.append((new_cell, np.array(new_cell, dtype=float, copy=True)))
 
     def to_dict(self):
         LOG.append(("to_dict", object.__getattribute__(self, "_tag")))
@@ -215,7 +218,7 @@ def run(tier: str) -> int:
         rep.count(json.dumps([driver, trials, ser]), nontrivial=len(trials) > 1)
         if n % 200 == 1:
             rep.sample(c)
-        del LOG[:], RESULTS[:], VERDICTS[:]
+        del LOG[:], RESULTS[:], VERDICTS[:], KEPT[:]
         ctx = {"case": c}
         try:
             mc = build(driver)
@@ -277,6 +280,10 @@ def run(tier: str) -> int:
             else:
                 rep.violation(f"raise:{driver}:{type(ex).__name__}", f"{driver}: replaying {trials} raised {type(ex).__name__}: {str(ex)[:160]}", dict(ctx, log=LOG[-8:]))
             continue
+        for obj, val in KEPT:
+            if not np.array_equal(np.asarray(obj, dtype=float), val):
+                rep.violation(f"notification-value-rewritten:on_cell_changed:{driver}", f"{driver}: the cell a user move was handed by on_cell_changed was rewritten by the driver afterwards (the move was given the driver's live cell, not the accepted value): was {val.tolist()}, is {np.asarray(obj).tolist()}", ctx)
+                break
         outside = [e for e in LOG if e[0] in ("getattr", "setattr")]
         for e in outside[:1]:
             rep.violation(f"outside-protocol:{e[0]}:{e[1]}:{e[2]}:{driver}", f"{driver}: the driver {e[0]}s attribute '{e[2]}' of a user {'move' if e[1] == 'U' else 'criteria'} (not part of the protocol)", dict(ctx, log=LOG[-8:]))
@@ -321,6 +328,37 @@ def run(tier: str) -> int:
                 k += 1
                 if kind != "cell":
                     rep.violation(f"notification-arguments:on_cell_changed:{driver}", f"{driver}: on_cell_changed got a cell that is not the accepted one", ctx)
+    # ---- the table is live: an entry the user replaces between the announcement of a trial and its execution (the hook
+    # the step generator offers) is the one that is executed and judged ---------------------------------------------
+    nswap = 0
+    for driver in ("MonteCarlo", "Canonical", "HamiltonianCanonical", "Isobaric", "Isotension", "GrandCanonical"):
+        for variant in ("assign", "add_move"):
+            del LOG[:], RESULTS[:], VERDICTS[:], KEPT[:]
+            nswap += 1
+            rep.count(("swap-at-announcement", driver, variant), nontrivial=True)
+            try:
+                mc = build(driver)
+                g = install_rng(mc)
+                mc.max_cycles = 1
+                g.script("choice", "user")
+                RESULTS.append(True)
+                VERDICTS.append(True)
+                for step in mc.irun(1):
+                    for name in step:
+                        if str(name) == "user":
+                            if variant == "assign":
+                                mc.moves["user"].move = UserMove("X")
+                                mc.moves["user"].criteria = UserCriteria("newcrit")
+                            else:
+                                mc.add_move(UserMove("X"), criteria=UserCriteria("newcrit"), name="user")
+                mc.close()
+            except Exception as ex:  # noqa: BLE001
+                rep.violation(f"raise:swap-at-announcement:{driver}:{type(ex).__name__}", f"{driver}: replacing the announced entry before it is executed raised {ex!r}", {"driver": driver, "variant": variant, "log": LOG[-8:]})
+                continue
+            calls = [e for e in LOG if e[0] in ("call", "evaluate")]
+            if calls != [("call", "X"), ("evaluate", "newcrit")]:
+                rep.violation(f"swap-at-announcement:{variant}:{driver}", f"{driver}: the user replaced the entry 'user' ({variant}) after its announcement; executed / judged were {calls}, expected the new move X and the new criteria", {"driver": driver, "variant": variant, "log": LOG[-8:]})
+    rep.add(swap_at_announcement_cases=nswap)
     rep.add(states=r.distinct, transitions=r.generated, traces_validated_against_impl=n, exhaustive=True,
             rule=f"every behaviour of Protocol.tla: driver in MonteCarlo/Canonical/HamiltonianCanonical/Isobaric/Isotension/GrandCanonical x sequence of <= {3 if tier == 'quick' else 4} trials (entry = user move, shipped exchange move (grand canonical) or shipped cell move (isobaric/isotension), each with a user criteria; move result truthy/falsy in 5 spellings; verdict truthy/falsy) x optional serialize-and-rebuild after the first trial, replayed with strict user objects; non-trivial = more than one trial")
     rep.assumptions += ["the strict objects allow dunder lookups (isinstance, call syntax) and refuse every other attribute outside the protocol", "the shipped exchange move of the table always inserts (bias 1), the schedule is imposed through the simulation's own generator"]
